@@ -188,7 +188,7 @@ PROPS = {
     "C04": {
         "level": "other",
         "rules": [("RN", 8, has("RN3")), ("HE", 7, has(*SDD_T)), ("GL", 2, has("GL3")), ("TS", 3, has("TS-OCC")),
-                  ("IM", 22, has("IM4")), ("RH", 14, None), ("CM", 3, None)],
+                  ("IM", 22, has("IM4")), ("RH", 14, None), ("CM", 9, None)],
         "explanation": "Order of SDD canonicalisation steps on every path to the unique tables (trim, compress, trim, sort, "
                        "sign-normalise, intern: RN3), Hash/Eq agreement of BinarySDD/SddOr/SddAnd and identity Hash/Eq of "
                        "SddPtr (HE), the shared unique-table rules (GL3, TS-OCC), nodes enter only through the tables (IM4). "
